@@ -571,6 +571,21 @@ def run_ml(chooser, cfg, inp):
     with owned_random(chooser):
         r = run_guarded(sim, max_events=MAX_EVENTS, on_event=on_event)
     w.leaders = leaders
+    # observation only (the statement promises equal VALUES): do leaders that agree on every value also agree on the
+    # version metadata they publish?
+    w.meta_differs = False
+    try:
+        for k in keys:
+            metas = set()
+            for ld in leaders:
+                vv = ld.versions.get(k)
+                metas.add(None if vv is None else (repr(vv.value), repr(vv.timestamp), vv.writer_id,
+                                                   tuple(sorted((vv.vector_clock or {}).items()))))
+            vals = {s_.get_sync(k) for s_ in w.stores.values()}
+            if len(vals) == 1 and len(metas) > 1:
+                w.meta_differs = True
+    except Exception:  # noqa: BLE001  (public surface changed: the counter is simply not fed)
+        pass
     return w, r, oracle_ml(w, r, cfg, inp, keys)
 
 
@@ -733,6 +748,27 @@ def ml_inputs(sizes, gaps, n_leaders, early=False):
     return res
 
 
+def tied_between_leaders(inp):
+    """Two different leaders write one key at exactly the same instant."""
+    ws = inp["writes"]
+    return any(ws[i][0] == ws[j][0] and ws[i][2] == ws[j][2] and ws[i][1] != ws[j][1]
+               for i in range(len(ws)) for j in range(i + 1, len(ws)))
+
+
+def with_early_rounds(inps, n_leaders, offsets):
+    """For every input with a write-instant tie between different leaders: one extra anti-entropy round fired
+    DURING replication, at every leader x every offset (ticks after the last write); its peer pick and its message
+    delays are explored like everything else."""
+    out = []
+    for x in inps:
+        if x["early"] is None and tied_between_leaders(x):
+            last = max(t for (t, _l, _k, _v) in x["writes"])
+            for li in range(n_leaders):
+                for off in offsets:
+                    out.append({"writes": x["writes"], "early": (li, last + off)})
+    return out
+
+
 # ---------------------------------------------------------------------------
 # exploration of one sub-space (one configuration x one input): all delay assignments
 # ---------------------------------------------------------------------------
@@ -746,7 +782,7 @@ def execute(scheme, cfg, inp, chooser):
 def _job(job):
     (drv, scheme, cfg, inp, bound) = job
     st = {"drv": drv, "exec": 0, "trans": 0, "nontriv": 0, "outcomes": set(), "viol": {}, "samples": [],
-          "horizon": 0, "unacked": 0, "pre_ae_div": 0, "premise_unmet": 0, "complete": True}
+          "horizon": 0, "unacked": 0, "pre_ae_div": 0, "premise_unmet": 0, "meta_diff": 0, "complete": True}
 
     def run_fn(ch):
         return execute(scheme, cfg, inp, ch)
@@ -773,6 +809,8 @@ def _job(job):
             if r["outcome"] == "done" and not getattr(w, "premise", True):
                 st["premise_unmet"] += 1
             conflict = w.pre_conflicts > 0
+            if r["outcome"] == "done" and w.meta_differs:
+                st["meta_diff"] += 1
         else:
             conflict = False
         dg = digest(obs)
@@ -924,19 +962,28 @@ def plan(tier):
                 if q and n == 2:
                     inps = ml_inputs((2,), G, 2, early=main_res) + ml_inputs((3,), G, 2)
                 elif q:
-                    inps = ml_inputs((2,), G, 3) + [
+                    two = ml_inputs((2,), G, 3)
+                    inps = two + [
                         x for x in ml_inputs((3,), (0, 1), 3)
                         if len({l for (_t, l, _k, _v) in x["writes"]}) == 3
                         and len({k for (_t, _l, k, _v) in x["writes"]}) == 1]
+                    if res in ("lww", "vcmerge"):   # the resolvers that break timestamp ties by writer id
+                        inps = inps + with_early_rounds(two, 3, (2, 6))
                 elif n == 2:
                     inps = ml_inputs((2, 3), G, 2, early=main_res or res == "vcmerge")
                 else:
-                    inps = ml_inputs((2,), G, 3, early=main_res) + ml_inputs((3,), (0, 1), 3)
+                    two = ml_inputs((2,), G, 3)
+                    three = ml_inputs((3,), (0, 1), 3)
+                    inps = ml_inputs((2,), G, 3, early=main_res) + three + with_early_rounds(two, 3, (2, 4, 6))
+                    if res in ("lww", "vcmerge"):
+                        inps = inps + with_early_rounds(three, 3, (2, 6))
                 for inp in inps:
                     if q:
                         b = B if main_res else 2
                     elif n == 2:
                         b = B if (main_res or res == "vcmerge") else 3
+                    elif inp["early"] is not None and inp["early"][1] != inp["writes"][1][0] + 1:
+                        b = 3 if len(inp["writes"]) == 2 else 2     # early rounds on tied writes
                     else:
                         b = (4 if len(inp["writes"]) == 2 else 3) if main_res else (3 if len(inp["writes"]) == 2 else 2)
                     jobs.append(("multileader", "ml", cfg, inp, b))
@@ -955,7 +1002,12 @@ def plan(tier):
                                              f"delivery, {AE_GAP} ticks apart (1 round for 2 leaders, 2 for 3); peer = "
                                              f"random.choice owned by the explorer; optional early round during the writes "
                                              f"with explored message delays" + (" (lww, 2 leaders x 2 writes)" if q else
-                                                                                " (lww; vcmerge for 2 leaders)"),
+                                                                                " (lww; vcmerge for 2 leaders)") +
+                                             "; 3 leaders: whenever two leaders write one key at the same instant, one "
+                                             "extra round fired DURING replication at every leader x offset "
+                                             + ("{2,6} ticks after the writes (lww at bound 3, vcmerge at bound 2; 2 writes)" if q else
+                                                "{2,4,6} (all resolvers, 2 writes, bound 3) / {2,6} (lww, vcmerge, 3 writes, "
+                                                "bound 2)") + ", peer pick and message delays explored",
                              "delay_assignments": ("deviation bound 3 for lww, 2 for the other resolvers" if q else
                                                    "lww: deviation bound 5 (3 leaders: 4 for 2 writes, 3 for 3 writes); "
                                                    "vcmerge: 5 (3 leaders: 3 / 2); vcmerge-fn, custom: 3 (3 leaders: 3 / 2)") +
@@ -974,7 +1026,7 @@ def run_driver(run, name, bounds, jobs, seed):
     res = [None] * len(jobs)
     for i, st in zip(order, res_rot):
         res[i] = st
-    agg = {"horizon": 0, "unacked": 0, "pre_ae_div": 0, "premise_unmet": 0, "cpu": 0.0}
+    agg = {"horizon": 0, "unacked": 0, "pre_ae_div": 0, "premise_unmet": 0, "meta_diff": 0, "cpu": 0.0}
     viol = {}
     bounded = 0
     for job, st in zip(jobs, res):
@@ -1007,6 +1059,8 @@ def run_driver(run, name, bounds, jobs, seed):
     if name == "multileader":
         d.extra["executions_diverged_before_anti_entropy(not a violation)"] = agg["pre_ae_div"]
         d.extra["executions_where_anti_entropy_premise_unmet(convergence not judged)"] = agg["premise_unmet"]
+        d.extra["executions_with_equal_values_but_different_version_metadata(observation, not a violation)"] = \
+            agg["meta_diff"]
     if agg["horizon"]:
         d.exhaustive = False
         d.caps.append(f"{agg['horizon']} executions stopped at the event horizon (convergence not judged there)")
